@@ -283,9 +283,15 @@ Lemma av_leb_spec v w : av_leb v w = true <->
   (feas w = true -> feas v = true) /\ (cons w = true -> cons v = true) /\ (cl w = true -> cl v = true) /\
   (sent w = true -> sent v = true) /\ (mono w = true -> mono v = true).
 Proof.
-  unfold av_leb. destruct v as [a1 a2 a3 a4 a5], w as [b1 b2 b3 b4 b5]; simpl.
-  destruct a1, a2, a3, a4, a5, b1, b2, b3, b4, b5; simpl; intuition congruence.
+  assert (Hi : forall a b, implb a b = true <-> (a = true -> b = true)) by (intros [|] [|]; simpl; intuition congruence).
+  unfold av_leb. rewrite !andb_true_iff, !Hi. tauto.
 Qed.
+Arguments av_leb : simpl never.
+Arguments f2_leb : simpl never.
+Arguments f1_leb : simpl never.
+Arguments meet : simpl never.
+Arguments f2_join : simpl never.
+Arguments f1_join : simpl never.
 Lemma av_leb_refl v : av_leb v v = true. Proof. apply av_leb_spec. tauto. Qed.
 Lemma av_leb_trans u v w : av_leb u v = true -> av_leb v w = true -> av_leb u w = true.
 Proof. rewrite !av_leb_spec. tauto. Qed.
@@ -303,14 +309,14 @@ Proof. destruct a, b, c; simpl; auto. Qed.
 
 Lemma ta_leb_refl a : ta_leb a a = true.
 Proof.
-  unfold ta_leb. destruct (bot a); simpl; [reflexivity|].
+  unfold ta_leb. destruct (bot a); cbn [orb negb andb]; [reflexivity|].
   rewrite !av_leb_refl, !f2_leb_refl, !f1_leb_refl, !implb_refl. reflexivity.
 Qed.
 
 Lemma ta_leb_trans a b c : ta_leb a b = true -> ta_leb b c = true -> ta_leb a c = true.
 Proof.
-  unfold ta_leb. destruct (bot a); simpl; [reflexivity|].
-  destruct (bot b); simpl; [discriminate|]. destruct (bot c); simpl; [intros _ H; discriminate|].
+  unfold ta_leb. destruct (bot a); cbn [orb negb andb]; [reflexivity|].
+  destruct (bot b); cbn [orb negb andb]; [discriminate|]. destruct (bot c); cbn [orb negb andb]; [intros _ H; discriminate|].
   rewrite !andb_true_iff.
   intros [[[[[[[[[[[[[[H1 H2] H3] H4] H5] H6] H7] H8] H9] H10] H11] H15] H12] H13] H14]
          [[[[[[[[[[[[[[K1 K2] K3] K4] K5] K6] K7] K8] K9] K10] K11] K15] K12] K13] K14].
@@ -325,7 +331,7 @@ Lemma ta_join_l a b : ta_leb a (ta_join a b) = true.
 Proof.
   unfold ta_join. destruct (bot a) eqn:Ea; [unfold ta_leb; rewrite Ea; reflexivity|].
   destruct (bot b) eqn:Eb; [apply ta_leb_refl|].
-  unfold ta_leb; rewrite Ea; simpl.
+  unfold ta_leb; rewrite Ea; cbn [orb negb andb bot lo cu hi be tr_ sa sc pf fl tl tq ff srt rk nd mk].
   rewrite !meet_l, !f2_join_l, !f1_join_l, !implb_and_l. reflexivity.
 Qed.
 
@@ -333,7 +339,7 @@ Lemma ta_join_r a b : ta_leb b (ta_join a b) = true.
 Proof.
   unfold ta_join. destruct (bot a) eqn:Ea; [apply ta_leb_refl|].
   destruct (bot b) eqn:Eb; [unfold ta_leb; rewrite Eb; reflexivity|].
-  unfold ta_leb; rewrite Eb; simpl.
+  unfold ta_leb; rewrite Eb; cbn [orb negb andb bot lo cu hi be tr_ sa sc pf fl tl tq ff srt rk nd mk].
   rewrite !meet_r, !f2_join_r, !f1_join_r, !implb_and_r. reflexivity.
 Qed.
 
@@ -755,7 +761,7 @@ Section Sound.
   (* ---------------------------------------------------------------- monotonicity *)
   Lemma cls_mono a b cur j : bot a = false -> ta_leb a b = true -> av_leb (cls a cur j) (cls b cur j) = true.
   Proof.
-    unfold ta_leb. intros -> H. simpl in H. rewrite !andb_true_iff in H.
+    unfold ta_leb. intros -> H. cbn [orb negb andb] in H. rewrite !andb_true_iff in H.
     destruct H as [_ [[[[[[[[[[[[[[H1 H2] H3] H4] H5] H6] H7] H8] H9] H10] H11] H15] H12] H13] H14]].
     unfold cls. destruct cur as [i|]; [destruct (j <? i); [|destruct (j =? i)]|]; assumption.
   Qed.
@@ -763,7 +769,7 @@ Section Sound.
   Lemma TG_mono a b cur x h : ta_leb a b = true -> TG a cur x h -> TG b cur x h.
   Proof.
     intros Hle [[P0 P1 P2 P3 P4 P5 P6 P7] [F1 F2 F3 F4 F5] [R1 R2] Hnd Hok Hadj].
-    pose proof Hle as Hle'. unfold ta_leb in Hle'. rewrite P0 in Hle'. simpl in Hle'. rewrite !andb_true_iff in Hle'.
+    pose proof Hle as Hle'. unfold ta_leb in Hle'. rewrite P0 in Hle'. cbn [orb negb andb] in Hle'. rewrite !andb_true_iff in Hle'.
     destruct Hle' as [Hb [[[[[[[[[[[[[[H1 H2] H3] H4] H5] H6] H7] H8] H9] H10] H11] H15] H12] H13] H14]].
     apply negb_true_iff in Hb.
     rewrite f2_leb_spec in H8, H9, H15. rewrite f1_leb_spec in H10, H11.
@@ -1476,7 +1482,7 @@ Section Sound.
   (* ---------------------------------------------------------------- the strong update for "for agent in agents" *)
   Lemma enter3_mono a b : ta_leb a b = true -> ta_leb (enter3 a) (enter3 b) = true.
   Proof.
-    unfold ta_leb, enter3; simpl. destruct (bot a); simpl; [reflexivity|]. destruct (bot b); simpl; [discriminate|].
+    unfold ta_leb, enter3; cbn [bot lo cu hi be tr_ sa sc pf fl tl tq ff srt rk nd mk]. destruct (bot a); cbn [orb negb andb]; [reflexivity|]. destruct (bot b); cbn [orb negb andb]; [discriminate|].
     rewrite !andb_true_iff.
     intros [[[[[[[[[[[[[[H1 H2] H3] H4] H5] H6] H7] H8] H9] H10] H11] H15] H12] H13] H14]. repeat split; assumption.
   Qed.
